@@ -605,7 +605,7 @@ impl RoomAuthorisations {
                             if let Some(room) = self.rooms.get(room_id) {
                                 if let Some(old_room_id) = &old_node.room_id {
                                     if !old_room_id.eq(room_id) {
-                                        if let Some(old_room) = self.rooms.get(room_id) {
+                                        if let Some(old_room) = self.rooms.get(old_room_id) {
                                             let can = if same_user {
                                                 old_room.can(
                                                     verifying_key,
@@ -628,7 +628,7 @@ impl RoomAuthorisations {
                                                 ));
                                             }
                                         } else {
-                                            return Err(Error::UnknownRoom(base64_encode(room_id)));
+                                            return Err(Error::UnknownRoom(base64_encode(old_room_id)));
                                         }
                                     }
                                 }
